@@ -103,10 +103,10 @@ func branchFact(b, pred *ssa.BasicBlock, k int, env map[*ssa.Phi]ssa.Value) (ato
 // or instruction lies on?
 type pathQuery struct {
 	settleEdge func(atom ssa.Value, truth bool) bool // taking an edge with this meaning settles the path
-	settleIns  func(ins ssa.Instruction) bool       // executing this instruction settles the path
-	settleAt   func(b *ssa.BasicBlock) bool         // entering this block settles the path
-	badBlock   func(b *ssa.BasicBlock) bool         // entering this block unsettled is a counterexample
-	badRet     func(ret *ssa.Return) bool           // returning here unsettled is a counterexample
+	settleIns  func(ins ssa.Instruction) bool        // executing this instruction settles the path
+	settleAt   func(b *ssa.BasicBlock) bool          // entering this block settles the path
+	badBlock   func(b *ssa.BasicBlock) bool          // entering this block unsettled is a counterexample
+	badRet     func(ret *ssa.Return) bool            // returning here unsettled is a counterexample
 }
 
 // run explores from the entry of start (reached from pred, which may be nil). It returns the
@@ -316,9 +316,9 @@ func argOfParam(callee *ssa.Function, call *ssa.Call, v ssa.Value) ssa.Value {
 	return nil
 }
 
-// guard: a branch of fn on whose `same` side two things are known to agree and on whose `diff`
+// agreeGuard: a branch of fn on whose `same` side two things are known to agree and on whose `diff`
 // side they may not.
-type guard struct {
+type agreeGuard struct {
 	iff        *ssa.If
 	diff, same *ssa.BasicBlock
 	x, y       ssa.Value
@@ -327,13 +327,13 @@ type guard struct {
 // resolveGuard understands `if cmp`, `if !cmp`, `if !same(a, b)` and
 // `if err := check(a, b); err != nil` where check returns a non-nil error whenever its own
 // comparison of the two parameters fails and nil only where it held.
-func resolveGuard(iff *ssa.If, atom func(bo *ssa.BinOp) (x, y ssa.Value, ok bool)) *guard {
+func resolveGuard(iff *ssa.If, atom func(bo *ssa.BinOp) (x, y ssa.Value, ok bool)) *agreeGuard {
 	s0, s1 := iff.Block().Succs[0], iff.Block().Succs[1]
 	if f := resolveCmp(iff.Cond, atom, 0); f != nil {
 		if f.eq {
-			return &guard{iff, s1, s0, f.x, f.y}
+			return &agreeGuard{iff, s1, s0, f.x, f.y}
 		}
-		return &guard{iff, s0, s1, f.x, f.y}
+		return &agreeGuard{iff, s0, s1, f.x, f.y}
 	}
 	// error-returning helper
 	c := iff.Cond
@@ -410,7 +410,7 @@ func resolveGuard(iff *ssa.If, atom func(bo *ssa.BinOp) (x, y ssa.Value, ok bool
 		if (bo.Op == token.EQL) != neg {
 			nonNil, isNil = s1, s0
 		}
-		return &guard{iff, nonNil, isNil, x, y}
+		return &agreeGuard{iff, nonNil, isNil, x, y}
 	}
 	return nil
 }
@@ -563,9 +563,23 @@ func isExistsAccumulator(v ssa.Value) bool {
 }
 
 // containerReads: the collections (slice- or map-typed fields) v is computed from, each as
-// "<field> of <base value>"; through phis, appends, lookups, element loads and copies.
+// "<field> of <base value>"; through phis, appends, lookups, element loads, copies, and through
+// module helpers (what a helper reads from its parameter is read from the argument).
 func containerReads(v ssa.Value) map[string]bool {
 	out := map[string]bool{}
+	for _, c := range containersOf(v, 0) {
+		out[fmt.Sprintf("%s of %s@%p", c.field, c.base.Name(), c.base)] = true
+	}
+	return out
+}
+
+type containerRead struct {
+	field string
+	base  ssa.Value
+}
+
+func containersOf(v ssa.Value, depth int) []containerRead {
+	var out []containerRead
 	seen := map[ssa.Value]bool{}
 	var f func(v ssa.Value)
 	f = func(v ssa.Value) {
@@ -577,8 +591,7 @@ func containerReads(v ssa.Value) map[string]bool {
 			if fa, ok := ld.X.(*ssa.FieldAddr); ok && fieldOf(fa) != nil {
 				switch fieldOf(fa).Type().Underlying().(type) {
 				case *types.Slice, *types.Map:
-					base := copyOrigin(fa.X)
-					out[fmt.Sprintf("%s of %s@%p", fieldOf(fa).Name(), base.Name(), base)] = true
+					out = append(out, containerRead{fieldOf(fa).Name(), copyOrigin(fa.X)})
 					return
 				}
 			}
@@ -588,6 +601,23 @@ func containerReads(v ssa.Value) map[string]bool {
 				f(w.src)
 			}
 			return
+		}
+		if c, ok := v.(*ssa.Call); ok && depth < 3 {
+			if sc := c.Call.StaticCallee(); sc != nil && inModule(sc) && sc.Blocks != nil && !c.Call.IsInvoke() {
+				for _, ret := range returnsOf(sc) {
+					for _, res := range retVals(ret) {
+						for _, cr := range containersOf(res, depth+1) {
+							for i, p := range sc.Params {
+								if cr.base == ssa.Value(p) && i < len(c.Call.Args) {
+									cr.base = copyOrigin(c.Call.Args[i])
+								}
+							}
+							out = append(out, cr)
+						}
+					}
+				}
+				return
+			}
 		}
 		ins, ok := v.(ssa.Instruction)
 		if !ok {
@@ -599,6 +629,59 @@ func containerReads(v ssa.Value) map[string]bool {
 	}
 	f(v)
 	return out
+}
+
+// lenOperand: atom compares len(e) with a constant; returns e.
+func lenOperand(atom ssa.Value) ssa.Value {
+	bo, ok := atom.(*ssa.BinOp)
+	if !ok {
+		return nil
+	}
+	for _, side := range []ssa.Value{bo.X, bo.Y} {
+		if c, ok := side.(*ssa.Call); ok {
+			if b, ok := c.Call.Value.(*ssa.Builtin); ok && b.Name() == "len" && len(c.Call.Args) == 1 {
+				return c.Call.Args[0]
+			}
+		}
+	}
+	return nil
+}
+
+// isListOf: e is a list built by appends (through the phis of loops and branches) every one of
+// which sits where guard holds: "the elements for which guard held".
+func isListOf(e ssa.Value, guard func(b *ssa.BasicBlock) bool) bool {
+	seen := map[ssa.Value]bool{}
+	appends := 0
+	var f func(v ssa.Value) bool
+	f = func(v ssa.Value) bool {
+		if seen[v] {
+			return true
+		}
+		seen[v] = true
+		switch x := v.(type) {
+		case *ssa.Phi:
+			for _, ed := range x.Edges {
+				if !f(ed) {
+					return false
+				}
+			}
+			return true
+		case *ssa.Const:
+			return x.Value == nil // the nil slice
+		case *ssa.MakeSlice:
+			return isIntConst(x.Len, 0)
+		case *ssa.Call:
+			if b, ok := x.Call.Value.(*ssa.Builtin); ok && b.Name() == "append" && len(x.Call.Args) == 2 {
+				if !guard(x.Block()) {
+					return false
+				}
+				appends++
+				return f(x.Call.Args[0])
+			}
+		}
+		return false
+	}
+	return f(e) && appends > 0
 }
 
 func sameStringSet(a, b map[string]bool) bool {
